@@ -15,11 +15,13 @@
 //             std::bad_alloc (global operator new is replaced below; the fault is armed thread-locally right before the call).
 //             With a value of >= 16 bytes that allocation is the copy of the value in store()'s first try block, so the call takes
 //             the path  catch(std::bad_alloc) { remove(key); return; }.  Answer `x` when the fault fired, `s` when it did not.
+// other lines: `probe` (build self-description), `hash <hexkey> ...` (string_hash of each key, for collision sets)
 // answer line: tsan=<reports>[:<kinds>] ; <inv>,<res>,<result> ... ; ...     (group 0 = prefill, then one group per thread)
 //   result: h:<value>:<sorted triggers>:<deadline>:<generation> | m | s | x | r | d | c | z:<keys>/<triggers>
 //   values longer than 32 bytes are printed as #<len>.<fnv1a64>.  A run that does not finish in time prints HANG and exits.
 #include "cache_storage.h"
 #include "base_cache.h"
+#include "hash_map.h"
 #include <booster/intrusive_ptr.h>
 #include <set>
 #include <map>
@@ -329,6 +331,14 @@ int main()
 		std::string r;
 		try {
 			if(!v.empty() && v[0]=="mt") r=run_mt(v);
+			else if(!v.empty() && v[0]=="hash") {
+				// hash <hexkey> ... : cppcms::impl::string_hash of the CURRENT private/hash_map.h (the hash behind primary / triggers):
+				// checks/C09.py builds key sets that collide in the hash maps from these answers
+				cppcms::impl::string_hash hf;
+				char buf[32];
+				r="hash";
+				for(size_t i=1;i<v.size();i++) { snprintf(buf,sizeof(buf)," %lu",(unsigned long)hf(unhex(v[i]))); r+=buf; }
+			}
 			else if(!v.empty() && v[0]=="probe") r=std::string("probe tsan=")+tsan_mode+" fault="+(fault_works() ? "works" : "inert");
 			else r="BAD-CASE";
 		}
